@@ -1,5 +1,6 @@
 import AdeuModel.Lemmas.Review
 import AdeuModel.Lemmas.ReviewDoc
+import AdeuModel.Lemmas.QuietPara
 /-
 C06 — accept and reject act exactly on the addressed change.
 `acceptN` / `rejectN` are what `_accept_change` / `_reject_change` do to one paragraph child; the
@@ -84,5 +85,24 @@ def sampleNodes : List Node :=
 
 example : (sampleNodes.flatMap (acceptN "1".toList)).length = 2 := by decide
 example : acceptedChars (sampleNodes.flatMap (rejectN "2".toList)) = "a ".toList := by decide
+
+/-- 'Accept all' gives the accepted view and leaves nothing behind to show: a paragraph as `accept_all_revisions`
+leaves it (insertions unwrapped, deletions dropped, comment ranges and references stripped) reads the same in the raw and
+in the accepted view - no wrapper, no metadata block - whatever the paragraph held before. -/
+theorem C06_accept_all_raw_view_is_accepted_view (cm : CMap) (p : Para) :
+    paraText false cm { p with nodes := (p.nodes.flatMap acceptAllN).flatMap stripCommentN } =
+      paraText true cm { p with nodes := (p.nodes.flatMap acceptAllN).flatMap stripCommentN } :=
+  paraText_acceptAll cm p
+
+/-- … and so does any paragraph in which every change has been resolved one by one (its content opens no insertion,
+deletion or comment range any more). -/
+theorem C06_resolved_paragraph_reads_the_same (cm : CMap) (p : Para) (h : ∀ n ∈ p.nodes, quietNode n = true) :
+    paraText false cm p = paraText true cm p :=
+  paraText_quiet cm p (itemsFrom_quiet _ _ _ h)
+
+example : paraText false [] { style := none, ppr := [], nodes := ([.run { b := none, i := none, rest := [], ch := [.t "keep ".toList] },
+      .del ⟨"1".toList, some "A".toList, none⟩ [{ b := none, i := none, rest := [], ch := [.dt "old ".toList] }],
+      .ins ⟨"2".toList, some "A".toList, none⟩ [.run { b := none, i := none, rest := [], ch := [.t "new".toList] }]].flatMap acceptAllN).flatMap stripCommentN } =
+    "keep new".toList := by decide
 
 end Adeu.Props.C06
